@@ -64,7 +64,7 @@ func (e Event) Str(k string) string {
 // Gate holds goroutines that arrive at matching gate hooks.
 type Gate struct {
 	t       *Tracer
-	match   func(ev string, node uint32, msg uint64) bool
+	match   func(e Event) bool
 	mu      sync.Mutex
 	open    bool
 	waiting int
@@ -125,13 +125,13 @@ func (t *Tracer) connIDLocked(ctx interface{}) uint64 {
 }
 
 func (t *Tracer) hook(gate bool, ev string, node uint32, msg uint64, kv []interface{}) {
-	t.record(gate, ev, node, msg, 0, kv)
+	rec := t.record(gate, ev, node, msg, 0, kv)
 	if gate {
 		t.mu.Lock()
 		p := t.perturb
 		var held *Gate
 		for _, g := range t.gates {
-			if g.match(ev, node, msg) {
+			if g.match(rec) {
 				held = g
 				break
 			}
@@ -151,12 +151,12 @@ func (t *Tracer) Emit(ev string, node uint32, tok uint64, kv ...interface{}) {
 	t.record(false, ev, node, 0, tok, kv)
 }
 
-func (t *Tracer) record(gate bool, ev string, node uint32, msg uint64, tok uint64, kv []interface{}) {
+func (t *Tracer) record(gate bool, ev string, node uint32, msg uint64, tok uint64, kv []interface{}) Event {
 	f := make(map[string]interface{}, len(kv)/2)
 	t.mu.Lock()
 	if t.off {
 		t.mu.Unlock()
-		return
+		return Event{Ev: ev, Node: node, Msg: msg, F: f}
 	}
 	for i := 0; i+1 < len(kv); i += 2 {
 		k, _ := kv[i].(string)
@@ -185,11 +185,13 @@ func (t *Tracer) record(gate bool, ev string, node uint32, msg uint64, tok uint6
 		tok = t.msgTok[msg]
 	}
 	t.seq++
-	t.events = append(t.events, Event{Seq: t.seq, Ev: ev, Node: node, Msg: msg, Tok: tok, Gate: gate, F: f})
+	rec := Event{Seq: t.seq, Ev: ev, Node: node, Msg: msg, Tok: tok, Gate: gate, F: f}
+	t.events = append(t.events, rec)
 	ch := t.changed
 	t.changed = make(chan struct{})
 	t.mu.Unlock()
 	close(ch)
+	return rec
 }
 
 // Len returns the number of events recorded so far.
@@ -264,7 +266,7 @@ func (t *Tracer) Stop() {
 }
 
 // NewGate installs a closed gate for the matching gate hooks.
-func (t *Tracer) NewGate(match func(ev string, node uint32, msg uint64) bool) *Gate {
+func (t *Tracer) NewGate(match func(e Event) bool) *Gate {
 	g := &Gate{t: t, match: match, ch: make(chan struct{}), arrived: make(chan struct{}, 1024)}
 	t.mu.Lock()
 	t.gates = append(t.gates, g)
